@@ -60,3 +60,48 @@ func Verif_C03_delivery() {
 	}
 	verifCoverIf("two-updates", len(pl.updates) == 2)
 }
+
+// schedule-focused variant: small concrete frames, all interleavings of reader / FSM /
+// keep-alive manager within the delay bound (a reader that runs ahead of the FSM, an
+// error that overtakes queued messages, ...)
+func Verif_C03_delivery_schedules() {
+	verifEngineOnly()
+	d := 2
+	if verifTier() >= 1 {
+		d = 3
+	}
+	verifDelayBound(d)
+	verifNote("schedule variant: 3 concrete UPDATE frames + KEEPALIVE then a symbolically chosen end (EOF, reset, corrupted header); all schedules of reader / FSM / keep-alive manager goroutines with at most 2 (quick) / 3 (thorough) delays; select arms ready together are always all explored")
+	cfg := symConfig()
+	verifAssume(cfg.holdSec >= 3)
+	end := verifChoose("end", 3)
+	mode := 1
+	if end == 1 {
+		mode = 2
+	}
+	conn := newSymConn("c", nil, mode)
+	bodies := [][]byte{{0, 0, 0, 0}, {0, 0, 0, 1, 9}, {0, 0, 0, 0}}
+	conn.addFrame(updateMessageType, bodies[0])
+	conn.addFrame(keepAliveMessageType, nil)
+	conn.addFrame(updateMessageType, bodies[1])
+	conn.addFrame(updateMessageType, bodies[2])
+	if end == 2 {
+		bad := mkFrame(keepAliveMessageType, nil)
+		bad[0] = 0
+		conn.addBytes(bad)
+	}
+	pl := newMonPlugin()
+	pl.yieldInCallbacks = true
+	p := mkPeer(cfg, pl)
+	f := fsmNegotiated(p, conn, 90, 1)
+	to, _ := f.established()
+	verifQuiesce()
+	verifAssert("each-update-delivered-exactly-once", len(pl.updates) == 3)
+	for j := 0; j < len(pl.updates) && j < 3; j++ {
+		verifAssertBytesEq("update-byte-exact-in-order", pl.updates[j], bodies[j])
+	}
+	verifAssert("no-delivery-outside-session", !pl.badOrder && !pl.overlap)
+	verifAssert("onclose-once", pl.nEstab == 1 && pl.nClose == 1)
+	verifAssert("session-ended-idle", to == idleState && conn.closed)
+	verifCover("schedules")
+}
